@@ -91,6 +91,7 @@ class Obligation:
     expr: object
     src: str
     line: int
+    assume: tuple = ()  # path conditions (sympy relations) under which the operation is evaluated
 
 
 @dataclass
@@ -224,6 +225,22 @@ class MetricTranslator:
                 continue
             if isinstance(s, ast.Return):
                 return self._expr(s.value, env, ops, obl, fi, depth)
+            if isinstance(s, ast.If) and len(s.body) == 1 and isinstance(s.body[0], ast.Return) and s.body[0].value is not None:
+                # guard clause: `if c: return A` / rest  (and `else: return B`)  is the piecewise value
+                kc, cond = self._expr(s.test, env, ops, obl, fi, depth)
+                if kc != "bool":
+                    raise AnalysisError(f"{fi.name}:{s.lineno}: guard clause on a non-scalar condition")
+                n0 = len(obl)
+                ka, a = self._expr(s.body[0].value, env, ops, obl, fi, depth)
+                for ob in obl[n0:]:
+                    ob.assume += (cond,)
+                n0 = len(obl)
+                rest = self._block(list(s.orelse) if s.orelse else stmts[i + 1:], dict(env), ops, obl, fi, depth)
+                if rest is None:
+                    raise AnalysisError(f"{fi.name}:{s.lineno}: no value after the guard clause")
+                for ob in obl[n0:]:
+                    ob.assume += (sp.Not(cond),)
+                return (rest[0], sp.Piecewise((a, cond), (rest[1], True)))
             # a metric that stores into one of its arguments changes the caller's vectors (and its own later results)
             params = set(fi.params)
             for st0 in fi.node.body:  # plain aliases of an argument (`dist = x`)
@@ -279,16 +296,26 @@ class MetricTranslator:
             benv = dict(benv)
             stmts = [x for x in stmts if not isinstance(x, ast.Pass)]
             for k, st in enumerate(stmts):
-                last = k == len(stmts) - 1
+                rest = stmts[k + 1:]
+                last = not rest or all(isinstance(x, ast.Continue) for x in rest)
                 if isinstance(st, ast.Assign) and len(st.targets) == 1 and isinstance(st.targets[0], ast.Name):
                     # a local of the element loop (hoisted sub-expression)
                     benv[st.targets[0].id] = self._expr(st.value, benv, ops, obl, fi, depth)
                     continue
-                if last and isinstance(st, ast.If):
+                if isinstance(st, ast.Assign) and len(st.targets) == 1 and isinstance(st.targets[0], ast.Tuple) \
+                        and isinstance(st.value, ast.Tuple) and len(st.value.elts) == len(st.targets[0].elts) \
+                        and all(isinstance(t, ast.Name) for t in st.targets[0].elts):
+                    vals = [self._expr(v, benv, ops, obl, fi, depth) for v in st.value.elts]
+                    for t, v in zip(st.targets[0].elts, vals):
+                        benv[t.id] = v
+                    continue
+                if isinstance(st, ast.If) and st.orelse and last:
                     cond = self._cond(st.test, benv, ops, obl, fi, depth)
-                    a = body(st.body, benv)
-                    b = body(st.orelse, benv)
-                    return sp.Piecewise((a, cond), (b, True))
+                    return sp.Piecewise((body(st.body, benv), cond), (body(st.orelse, benv), True))
+                if isinstance(st, ast.If) and not st.orelse and st.body and isinstance(st.body[-1], ast.Continue) and rest:
+                    # guard clause: `if c: dist[i] = A; continue` / rest
+                    cond = self._cond(st.test, benv, ops, obl, fi, depth)
+                    return sp.Piecewise((body(st.body[:-1], benv), cond), (body(rest, benv), True))
                 if last and isinstance(st, ast.Assign):
                     t = st.targets[0]
                     if isinstance(t, ast.Subscript) and isinstance(t.value, ast.Name) and t.value.id == target \
@@ -513,6 +540,32 @@ def normal_form(e, ops: Ops):
         return t
 
     e = e.replace(lambda t: isinstance(t, sp.Max), drop_clamp)
+
+    # Piecewise((v, c), (g, True)) = g when c can only hold where g already takes the value v:
+    #   c is `a == b`, or `a >= b` with b - a >= 0 a lemma (so c <=> a == b), and g[a == b] == v
+    def drop_guard(t):
+        if len(t.args) != 2 or t.args[1][1] != sp.true:
+            return t
+        (v, c), (g, _) = t.args
+        if isinstance(c, sp.Eq):
+            d = c.lhs - c.rhs
+        elif isinstance(c, (sp.Ge, sp.Le)):
+            d = c.gts - c.lts
+            if not (real_nonneg_lemma(-d, ops) or real_nonneg_lemma(-2 * d, ops) or sign_of(-d) in (">=0", "0")):
+                return t
+        else:
+            return t
+        for atom in sorted((x for x in d.atoms(sp.Function) if x.func == S), key=str):
+            try:
+                sols = sp.solve(d, atom)
+            except Exception:
+                continue
+            if len(sols) == 1 and sp.simplify(g.subs(atom, sols[0]) - v.subs(atom, sols[0])) == 0:
+                return g
+        return t
+
+    if e.has(sp.Piecewise):
+        e = e.replace(lambda t: isinstance(t, sp.Piecewise), drop_guard)
     e = sp.piecewise_fold(e) if e.has(sp.Piecewise) else e
     return _lin_S(e, ops)
 
@@ -706,6 +759,20 @@ def discharge(ob: Obligation, ops: Ops) -> Tuple[bool, str]:
     # cardinality facts hold exactly
     e = e.replace(lambda t: getattr(t, "func", None) == CNZ and t.args[0] == sp.true, lambda t: ops.n)
     s = sign_of(e)
+    if s == "T":
+        # a path condition `a < b` (the negation of a guard clause's test) bounds every positive multiple of b - a;
+        # comparison and subtraction are exact enough for this to hold in floating point as well
+        for c in ob.assume:
+            c = sp.simplify(c) if isinstance(c, sp.Not) else c
+            if isinstance(c, (sp.Lt, sp.Gt, sp.Le, sp.Ge)):
+                d = c.gts - c.lts
+                try:
+                    ratio = sp.simplify(e / d)
+                except Exception:
+                    continue
+                if ratio.is_number and ratio > 0:
+                    s = ">0" if isinstance(c, (sp.Lt, sp.Gt)) else ">=0"
+                    break
     if ob.kind == "sqrt":
         if s in (">0", ">=0", "0"):
             return True, f"operand {s}"
